@@ -33,7 +33,11 @@ const (
 	maxHangs  = 6
 )
 
-var extraEnv = []string{"C18_EXTRA=some value with spaces", "C18_SECOND=2"}
+// extra variables: one whose name extends another extra variable's name and is given BEFORE it, and (see init) one of the
+// parent's own variables whose name extends an extra variable's name: each keeps its own value in the child
+var extraEnv = []string{"C18_EXTRA_LONGER=kept as it is", "C18_EXTRA=some value with spaces", "C18_SECOND=2"}
+
+func init() { _ = os.Setenv("C18_SECOND_INHERITED", "from the parent") }
 
 // realCase is one run of a real child through the subprocess API.
 type realCase struct {
@@ -380,7 +384,7 @@ func realCases(thorough bool) ([]realCase, realBound) {
 	for _, code := range codes {
 		for _, api := range []string{"execute", "execute-env", "output", "output-env"} {
 			cases = append(cases, realCase{Family: "exit", API: api, Exit: code, Ops: []script.Op{
-				script.Out("Oa\nOb"), script.Err("Ex\n"), script.Out("\n"), script.Env("C18_EXTRA"), script.Env("C18_SECOND"), script.Err("Ey"), script.Exit(code)}})
+				script.Out("Oa\nOb"), script.Err("Ex\n"), script.Out("\n"), script.Env("C18_EXTRA"), script.Env("C18_SECOND"), script.Env("C18_EXTRA_LONGER"), script.Env("C18_SECOND_INHERITED"), script.Err("Ey"), script.Exit(code)}})
 		}
 	}
 	// a Subprocess object that has already run once
